@@ -235,14 +235,15 @@ func splitArtifact(s string) (verStr, body string, ok bool) {
 	return parts[0], parts[1], true
 }
 
-// faultSig names the storage-fault scenario a post-fault violation is attributed to: a failed trim if there
-// was one (its incomplete in-memory rollback skews every later archive access), else a failed restore (archive
-// and policy are written by two separate puts), else the first operation whose put failed.
+// faultSig names the storage-fault scenario a post-fault violation is attributed to: a failed restore if there was
+// one (archive and policy are written by two separate puts outside any transaction: known finding F39), else a
+// failed trim (F38, repaired: an incomplete in-memory rollback skewed every later archive access — the signature
+// stays so that the defect is reported if it returns), else the first operation whose put failed.
 func (g *gen) faultSig() string {
 	if len(g.failedFaults) == 0 {
 		return "fault-planned-but-not-fired"
 	}
-	for _, want := range []string{"trim", "restore"} {
+	for _, want := range []string{"restore", "trim"} {
 		for _, k := range g.failedFaults {
 			if k == want {
 				return "after-failed-" + want
@@ -959,7 +960,34 @@ func (g *gen) opFailPut() {
 
 func ip(v int) *int { return &v }
 
-// directedFaultCase is the minimal history of finding F13 (failed archive put during trim, retried trim, then
+// directedRotateFaultCase: the k-th Put of a rotation fails, the rotation is retried, the new version is used, then
+// min_decryption_version is raised above it and lowered again (the archive slot of the retried version must hold the
+// key that is in use).
+func (g *gen) directedRotateFaultCase(k int) {
+	g.typ, g.derived, g.convergent = "chacha20-poly1305", false, false
+	cls := g.t.New(g.typ, false, false)
+	g.epoch++
+	g.emit(g.polResult(cls), "new", g.typ, "0", "0")
+	g.opRotate()
+	g.t.FailPut(k)
+	g.faultSeen = true
+	g.emit("ok", "failput", strconv.Itoa(k))
+	g.opRotate()
+	if g.lastCls == "persist:put" {
+		g.failedFaults = append(g.failedFaults, "rotate")
+	}
+	g.t.FailPut(0)
+	g.opRotate()
+	g.doEnc(0, nil, nil, nil, []byte("after retry"))
+	g.opRotate()
+	g.doConfig(ip(g.info.Latest), ip(g.info.Latest), nil, nil, nil)
+	g.doConfig(ip(1), nil, nil, nil, nil)
+	g.doDecPlain(1)
+	g.opRotate()
+	g.doDecPlain(1)
+}
+
+// directedFaultCase is the minimal history of finding F38 (failed archive put during trim, retried trim, then
 // min_decryption_version raised and lowered): run first so that the fault stream always exercises it.
 func (g *gen) directedFaultCase(k int) {
 	g.typ, g.derived, g.convergent = "aes256-gcm96", false, false
@@ -1021,8 +1049,12 @@ func Run(out *vh.Out, rng *vh.Rand, mk func(useCache bool) Target, cases, opsPer
 		g.ctxs = [][]byte{[]byte("ctx-a"), []byte("ctx-b"), r.Bytes(1 + r.Intn(20))}
 		g.aads = [][]byte{[]byte("aad-1"), []byte("aad-2"), r.Bytes(1 + r.Intn(24))}
 		g.msgs = [][]byte{nil, []byte("m"), []byte("hello world"), r.Bytes(1 + r.Intn(48)), r.Bytes(300), r.Bytes(32), r.Bytes(32), r.Bytes(32)}
-		if faults && c < 2 {
-			g.directedFaultCase(c + 1)
+		if faults && c < 4 {
+			if c < 2 {
+				g.directedFaultCase(c + 1)
+			} else {
+				g.directedRotateFaultCase(c - 1)
+			}
 			g.t.Close()
 			continue
 		}
